@@ -99,7 +99,7 @@ type fixture struct {
 }
 
 func buildFixture(r *vh.Run, rng *rand.Rand, root string, i int) fixture {
-	kinds := []string{"populated", "populated-nested", "legacy", "legacy", "testdata", "stray-uploads", "empty-root"}
+	kinds := []string{"populated", "populated-nested", "legacy", "legacy", "testdata", "stray-uploads", "empty-root", "truncated-index"}
 	f := fixture{kind: kinds[i%len(kinds)]}
 	switch f.kind {
 	case "populated", "populated-nested", "stray-uploads":
@@ -141,6 +141,16 @@ func buildFixture(r *vh.Run, rng *rand.Rand, root string, i int) fixture {
 		f.repos = []string{"testrepo", "corrupt", "exdir"}
 	case "empty-root":
 		f.repos = []string{"r"}
+	case "truncated-index":
+		// a layout whose index.json was cut off (a writer that died): nothing of it can be listed, and nothing may be
+		// changed either
+		p := filepath.Join(root, "t")
+		_ = os.MkdirAll(filepath.Join(p, "blobs", "sha256"), 0o755)
+		_ = os.WriteFile(filepath.Join(p, "oci-layout"), []byte(`{"imageLayoutVersion":"1.0.0"}`), 0o644)
+		_ = os.WriteFile(filepath.Join(p, "index.json"), []byte(`{"schemaVersion":2,"manifests":[{`), 0o644)
+		b := []byte(fmt.Sprintf("content next to a truncated index %d", i))
+		_ = os.WriteFile(filepath.Join(p, "blobs", "sha256", vh.DigestOf("sha256", b)[7:]), b, 0o644)
+		f.repos = []string{"t"}
 	}
 	return f
 }
@@ -152,7 +162,8 @@ func readonlyBatch(r *vh.Run, i int) {
 	root := filepath.Join(base, "root")
 	_ = os.MkdirAll(root, 0o755)
 	f := buildFixture(r, rng, root, i)
-	kind := []vh.StoreKind{vh.Dir, vh.MemDir}[(i/7)%2]
+	kind := []vh.StoreKind{vh.Dir, vh.MemDir, vh.MemDir}[(i/8)%3]
+	ro := kind == vh.Dir || (i/8)%3 == 2 // the directory store is always opened read-only, the memory store over the directory in one of two batches
 	before := snapshot(root)
 	var mu sync.Mutex
 	var muts []string
@@ -170,12 +181,12 @@ func readonlyBatch(r *vh.Run, i int) {
 	})
 	defer unreg()
 	c := vh.Conf(kind, root, vh.Policy{Untagged: true, Dangling: true, WithSubj: true, EmptyRepo: true, Grace: -1})
-	if kind == vh.Dir {
+	if ro {
 		c.Storage.ReadOnly = vh.BP(true)
 	}
 	c.Storage.GC.Frequency = 3 * time.Millisecond
 	srv := vh.New(c)
-	wit := map[string]any{"batch": i, "store": kind.String(), "fixture": f.kind}
+	wit := map[string]any{"batch": i, "store": kind.String(), "read_only": ro, "fixture": f.kind}
 	var trace []string
 	viol := func(sig, detail string) {
 		tr := trace
@@ -251,6 +262,25 @@ func readonlyBatch(r *vh.Run, i int) {
 					viol("content-not-served:tag", fmt.Sprintf("%s: tag %s of the legacy fixture answers %d", when, tg, rs.Status))
 					return false
 				}
+			}
+			// what a fallback tag records is content too: either the tag is still served as it lies in the directory,
+			// or the referrers it lists for its subject are served by the referrers API (converted in memory)
+			for tg, fb := range f.legacy.Fallback {
+				if !ro {
+					break // the writable memory store collects in memory (dangling referrers are garbage under this policy)
+				}
+				hd := do(vh.Req{Method: "HEAD", URL: "/v2/leg/manifests/" + tg, H: map[string]string{"Accept": vh.AcceptAll}})
+				if hd.Status == 200 {
+					continue
+				}
+				rs := do(vh.Req{Method: "GET", URL: "/v2/leg/referrers/" + fb.Subject})
+				for _, d := range fb.Lists {
+					if rs.Status != 200 || !strings.Contains(string(rs.Body), d) {
+						viol("content-not-served:fallback-referrers", fmt.Sprintf("%s: fallback tag %s of the legacy fixture answers %d and the referrers API (status %d) does not list %s, which the tag's index lists for its subject (classes %v)", when, tg, hd.Status, rs.Status, vh.Short(d), f.legacy.Kinds))
+						return false
+					}
+				}
+				r.Count("fallback_tags_checked", 1)
 			}
 			tagged := map[string]bool{}
 			for _, d := range f.legacy.OtherTags {
@@ -337,12 +367,12 @@ func readonlyBatch(r *vh.Run, i int) {
 		p := reqs[rng.Intn(len(reqs))]
 		rs := do(p.rq)
 		r.Distinct("request_kinds", p.rq.Method+" "+strings.SplitN(strings.TrimPrefix(p.rq.URL, "/v2/"+rp+"/"), "/", 2)[0])
-		if rs.Status >= 500 {
-			viol("5xx", fmt.Sprintf("%s answered %d on a %s store", vh.ShortReq(p.rq), rs.Status, kind))
+		if rs.Status >= 500 && f.kind != "truncated-index" { // (a repository whose index cannot be parsed may fail to load; refusals are judged below)
+			viol("5xx", fmt.Sprintf("%s answered %d on a %s store (read-only %v)", vh.ShortReq(p.rq), rs.Status, kind, ro))
 			ok = false
 		}
-		if kind == vh.Dir && p.mutates && (rs.Status < 400 || rs.Status >= 500) {
-			viol("mutating-request-not-refused", fmt.Sprintf("%s answered %d on a read-only directory store", vh.ShortReq(p.rq), rs.Status))
+		if ro && p.mutates && (rs.Status < 400 || rs.Status >= 500) {
+			viol("mutating-request-not-refused", fmt.Sprintf("%s answered %d on a read-only %s store", vh.ShortReq(p.rq), rs.Status, kind))
 			ok = false
 		}
 		if rs.Status == 202 && kind == vh.MemDir {
@@ -358,7 +388,7 @@ func readonlyBatch(r *vh.Run, i int) {
 			ok = false
 		}
 	}
-	if ok && kind == vh.Dir {
+	if ok && ro {
 		ok = serveCheck("after the hostile requests")
 	}
 	time.Sleep(8 * time.Millisecond) // a few ticks of the collection ticker
@@ -382,7 +412,7 @@ func readonlyBatch(r *vh.Run, i int) {
 	r.Count("fs_calls_observed", n)
 	r.Count("snapshot_entries_compared", len(before))
 	r.Count("readonly_batches", 1)
-	r.Distinct("fixtures_x_stores", f.kind+"/"+kind.String())
+	r.Distinct("fixtures_x_stores", fmt.Sprintf("%s/%s/ro=%v", f.kind, kind, ro))
 	if i < 2 {
 		tr := trace
 		if len(tr) > 15 {
@@ -493,7 +523,7 @@ func switchBatch(r *vh.Run, i int) {
 
 func main() {
 	r := vh.Start()
-	na := r.N(56, 1400)
+	na := r.N(96, 2400)
 	nb := r.N(64, 640)
 	vh.Parallel(na+nb, 12, func(i int) {
 		if i < na {
@@ -508,5 +538,5 @@ func main() {
 	r.Require("switch_trials", int64(nb/2))
 	r.Require("unchanged_state_checks", int64(nb*3))
 	r.RequireDistinct("fixtures_x_stores", 10)
-	r.Finish("(a) read-only directory stores and memory-over-directory stores (collection ticker at 3 ms, no grace period) over 7 fixture kinds (populated, nested, legacy accurate/stale, olareg's testdata incl. the corrupt layout, stray _uploads and temp files, empty root) x 60 requests of 16 kinds incl. uploads, mounts, pushes, deletes, listings, referrers with and without filter, ranges; os-shim monitor for mutating calls, recursive snapshot compare after the batch and after Close, fixture content re-read; (b) all 32 combinations of read-only / push / delete / blob delete / referrers on a directory store with a 12-probe behaviour table and snapshot compare after every refused probe; a case is one batch or combination trial, distinct = fixture x store pairs", "cases", "fixtures_x_stores")
+	r.Finish("(a) read-only directory stores and memory-over-directory stores (collection ticker at 3 ms, no grace period) over 8 fixture kinds (populated, nested, legacy accurate/stale incl. what the fallback tags record, olareg's testdata incl. the corrupt layout, stray _uploads and temp files, empty root, truncated index.json), the memory store over the directory writable and read-only, x 60 requests of 16 kinds incl. uploads, mounts, pushes, deletes, listings, referrers with and without filter, ranges; os-shim monitor for mutating calls, recursive snapshot compare after the batch and after Close, fixture content re-read; (b) all 32 combinations of read-only / push / delete / blob delete / referrers on a directory store with a 12-probe behaviour table and snapshot compare after every refused probe; a case is one batch or combination trial, distinct = fixture x store pairs", "cases", "fixtures_x_stores")
 }
